@@ -1,6 +1,7 @@
 package main
 
 import (
+	"sync/atomic"
 	"errors"
 	"log"
 	"strconv"
@@ -32,6 +33,9 @@ import (
 //   drive c09 inputs <out>                 small inputs for the Pipeline model (direction B)
 //   drive c09 run <behaviours> <out>       gated replay of TLC behaviours + free-running cases
 func init() { commands["c09"] = c09 }
+
+// longStallsLeft: how many more second-long consumer stalls this run of the driver makes (lag mode)
+var longStallsLeft int32 = 2
 
 type c09Input struct {
 	In   []int `json:"in"`
@@ -210,6 +214,7 @@ func runPipeline(w *tr.Writer, in []byte, caps []int, mode string, hist [][]inte
 			defer cwg.Done()
 			slow := mode != "gated" && rng != nil && i%2 == 1
 			lag := mode == "lag" && i == lagIdx
+			nrecv := 0
 			for {
 				if ctl != nil {
 					ctl.At("cons.recv", i+1)
@@ -229,6 +234,12 @@ func runPipeline(w *tr.Writer, in []byte, caps []int, mode string, hist [][]inte
 				emu.Lock()
 				w.Emit(c09Recv{"recv", consIdx[i], msgDigest(&mm)})
 				emu.Unlock()
+				nrecv++
+				if lag && nrecv == 3 && atomic.AddInt32(&longStallsLeft, -1) >= 0 {
+					// once or twice per run of the check: the lagging consumer stops receiving for more than a second in
+					// mid-stream and then carries on - it still gets every message, in order
+					time.Sleep(1300 * time.Millisecond)
+				}
 				if lag {
 					time.Sleep(1500 * time.Microsecond) // a consumer that falls far behind the others
 				} else if slow {
